@@ -41,6 +41,18 @@ def table(key, form):
     if form == "t_negentry":
         t2[key][1][1] = -t2[key][1][1]
         return t2
+    if form == "t1_negentry":
+        t1[key][0][1] = -t1[key][0][1]
+        return t1
+    if form == "t1_neg":
+        t1[key] = [[-x for x in row] for row in t1[key]]
+        return t1
+    if form == "t2_neg":
+        t2[key] = [[-x for x in row] for row in t2[key]]
+        return t2
+    if form == "t2_negaxis":
+        t2["vi"] = [-v for v in t2["vi"]]
+        return t2
     if form == "t_zeroentry":
         t2[key][0][2] = 0.0
         return t2
@@ -94,6 +106,9 @@ def magnitudes(kw):
             out[k] = abs(v)
         elif isinstance(v, list) and all(isinstance(x, (int, float)) for x in v):
             out[k] = [abs(x) for x in v]
+        elif isinstance(v, dict) and k != "limits":
+            out[k] = {kk: ([[abs(x) for x in row] for row in vv] if vv and isinstance(vv[0], list) else [abs(x) for x in vv])
+                      for kk, vv in v.items()}
         else:
             out[k] = v
     return out
